@@ -373,10 +373,10 @@ def c12(tier, replay=None):
             o = docs[key]
             d = o["d"]
             label = "%s at %d of %s" % (o["defect"], o["pos"], "+".join("%s/%s/%s" % (s["v"], s["p"], s["s"]) for s in o["slots"]))
+            per_class[o["defect"]] += 1        # planted (the vacuity guard is about generation, not about the parse surviving)
             if po is None:
                 rep.violation("%s: abnormal termination %s" % (o["defect"], sanitizer_signature(leak or "")), "cif_parse did not return on %s" % label, {"text": jobs[key][0], "stderr": (leak or "")[-1500:]})
                 continue
-            per_class[o["defect"]] += 1
             problems = []
             errs = [e for e in po.get("log", []) if e.get("cb") == "error"]
             if d["code"] == 0:
